@@ -94,6 +94,11 @@ theorem path_label (ext : List (Lbl × S)) (st : S) (l : Lbl) : PathIO ext st st
 theorem path_goto (ext : List (Lbl × S)) (st : S) (l : Lbl) (h : (l, st) ∈ ext) : PathIO ext st st [.goto l] [(.goto l, st)] :=
   path_single ext st st _ (fun R _ he => by simp only [okStep]; exact ⟨he _ h, trivial⟩)
 
+/-- an unconditional jump (`Goto` whose expression is the constant True): the state of the NEXT element is not
+    constrained by it — here it is left as `st` (the templates of `when`-free programs continue in the same state) -/
+theorem path_jump (ext : List (Lbl × S)) (st : S) (l : Lbl) (h : (l, st) ∈ ext) : PathIO ext st st [.jump l] [(.jump l, st)] :=
+  path_single ext st st _ (fun R _ he => by simp only [okStep]; exact he _ h)
+
 /-- leaves executed in one state (a failing spec op / abort goes to the innermost handler of that state) -/
 theorem path_leaves (ext : List (Lbl × S)) (st : S) (htop : TopIn ext st) : ∀ (ps : List (Prim Lbl)), ps.all leaf = true →
     PathIO ext st st ps (ps.map fun e => (e, st)) := by
@@ -162,7 +167,7 @@ theorem forkItems_path (e : Lbl) : ∀ (ls : List Lbl) (gens : List Gen) (c : Na
         (List.nodup_cons.1 hnd).2 (fun x hx => by have := hlt x (List.mem_cons_of_mem _ hx); omega) ext st1
         (fun n hn => by have := hsb n hn; omega) htop he
       have p1 := path_label ext st1 l
-      have p3 := path_goto ext st1 e he
+      have p3 := path_jump ext st1 e he
       have a1 := path_append ext st1 st1 st1 _ _ _ _ p1 hb (by
         intro x hx hy
         simp at hx; subst hx
@@ -329,13 +334,13 @@ theorem while_path (ext : List (Lbl × S)) (st : S) (c : Nat) (body : List (Prim
     (hinv : Inv [("_while_begin_", c), ("_while_end_", c)] (c + 1) body)
     (hb : PathIO [(("_while_begin_", c), st), (("_while_end_", c), st)] st st body.1 apb) :
     ∃ ap, PathIO ext st st ([.label ("_while_begin_", c), .goto ("_while_end_", c)] ++ body.1 ++
-      [.goto ("_while_begin_", c), .label ("_while_end_", c)]) ap := by
+      [.jump ("_while_begin_", c), .label ("_while_end_", c)]) ap := by
   let E : List (Lbl × S) := (("_while_begin_", c), st) :: (("_while_end_", c), st) :: ext
   have hb' : PathIO E st st body.1 apb := path_ext_mono _ E (by
     intro x hx; simp at hx; rcases hx with hx | hx <;> subst hx <;> simp [E]) _ _ _ _ hb
   have p1 := path_label E st ("_while_begin_", c)
   have p2 := path_goto E st ("_while_end_", c) (by simp [E])
-  have p4 := path_goto E st ("_while_begin_", c) (by simp [E])
+  have p4 := path_jump E st ("_while_begin_", c) (by simp [E])
   have p5 := path_label E st ("_while_end_", c)
   have a1 := path_append E st st st _ _ _ _ p1 p2 (by intro l _ h; simp at h)
   have a2 := path_append E st st st _ _ _ _ a1 hb' (by
@@ -376,14 +381,14 @@ theorem if_path_noelse (ext : List (Lbl × S)) (st : S) (c : Nat) (te : List (Pr
 theorem if_path_else (ext : List (Lbl × S)) (st : S) (c : Nat) (te fe : List (Prim Lbl) × Nat) (apt apf : List AP) {e0 : List Lbl}
     (hti : Inv e0 (c + 2) te) (hfi : Inv e0 te.2 fe) (ht : PathIO ext st st te.1 apt) (hf : PathIO ext st st fe.1 apf) :
     ∃ ap, PathIO ext st st ([.goto ("if_else_body_label_", c)] ++ te.1 ++
-      [.goto ("if_end_label_", c + 1), .label ("if_else_body_label_", c)] ++ fe.1 ++ [.label ("if_end_label_", c + 1)]) ap := by
+      [.jump ("if_end_label_", c + 1), .label ("if_else_body_label_", c)] ++ fe.1 ++ [.label ("if_end_label_", c + 1)]) ap := by
   let E : List (Lbl × S) := (("if_end_label_", c + 1), st) :: (("if_else_body_label_", c), st) :: ext
   have hsub : ∀ x ∈ ext, x ∈ E := fun x hx => List.mem_cons_of_mem _ (List.mem_cons_of_mem _ hx)
   have ht' := path_ext_mono _ E hsub _ _ _ _ ht
   have hf' := path_ext_mono _ E hsub _ _ _ _ hf
   have m1 := hti.mono
   have p1 := path_goto E st ("if_else_body_label_", c) (by simp [E])
-  have p2 := path_goto E st ("if_end_label_", c + 1) (by simp [E])
+  have p2 := path_jump E st ("if_end_label_", c + 1) (by simp [E])
   have p3 := path_label E st ("if_else_body_label_", c)
   have p5 := path_label E st ("if_end_label_", c + 1)
   have a1 := path_append E st st st _ _ _ _ p1 ht' (by intro l h _; simp at h)
